@@ -205,6 +205,8 @@ fn c12_check(tier: &str, replay: Option<&str>) -> i32 {
     rep.cov("runs", json!(runs_json));
     rep.cov("samples", json!(samples));
     rep.cov("exhaustive", json!(exhaustive));
+    // (c) counts produced by long real histories under the default targets (E-LONG)
+    size_part(&mut rep, "C12", tier);
     rep.assume("urgency rounding: floor(3t/2) is the anchored high threshold; at that single point of an odd target both low and high are accepted");
     rep.assume("snapshot ages are installed by rewriting the stored timestamp through StorageTxn::set_snapshot (time passing); the counter is swept to u32::MAX-1");
     rep.finish()
@@ -270,6 +272,7 @@ fn alpha(n_clients: u8, anc_max: u8, foreign: bool, dup: bool, snapshots: bool, 
         ages: ages.to_vec(),
         big_payload: false,
         huge_payload: false,
+        id_family: 0,
     }
 }
 
@@ -358,6 +361,14 @@ pub fn seq_runs(id: &str, tier: &str) -> Vec<(String, SeqParams)> {
             let mut v = vec![base("two clients quoting each other's ids", alpha(2, 1, true, true, true, &[]), lib2.clone(), if quick { D2Q } else { D2T }, if quick { 1 } else { 2 })];
             if !quick {
                 v.push(base("three clients", alpha(3, 1, true, false, true, &[]), lib2.clone(), 4, 1));
+            }
+            // ids are values too: the same exploration with client ids that a lossy encoding
+            // somewhere below could confuse (all-decimal neighbours, tiny ids, nil / all-ones /
+            // one bit apart)
+            for (fam, what) in [(1u8, "all-decimal client ids that differ in the last digit"), (2, "tiny client ids (…0001, …0002, …0003)"), (3, "client ids nil, all-ones and one bit apart")] {
+                let mut a = alpha(3, 1, true, false, true, &[]);
+                a.id_family = fam;
+                v.push(base(&format!("three clients, {what}"), a, vec![MEM_LIB, SQL_LIB, SQL_HTTP], if quick { 3 } else { 4 }, 1));
             }
             for r in v.iter_mut() {
                 r.1.solo_runs = true;
@@ -518,7 +529,8 @@ pub fn absorb_seq(rep: &mut Report, id: &str, name: &str, p: &SeqParams, r: &Seq
 /// payload, complete product; findings are kept when tagged with `id`.
 pub fn size_part(rep: &mut Report, id: &str, tier: &str) {
     let quick = tier != "thorough";
-    let sizes = crate::esize::ladder(quick);
+    // C12 is about counts, not sizes: the long histories only
+    let sizes = if id == "C12" { vec![] } else { crate::esize::ladder(quick) };
     let specs = ["MemLib", "SqlLib", "SqlLibReopen", "MemHttp", "SqlHttp"];
     let mut tasks = vec![];
     for &sz in sizes.iter().rev() {
